@@ -87,6 +87,10 @@ type Suite struct {
 	// Crashy makes Run write the plan about to be executed to current-<pid>.json first, so that a
 	// process-killing failure (race detector exit, panic on a library goroutine) leaves a replay.
 	Crashy bool
+	// HangLimit > 0 runs every case under a wall-clock watchdog: a case that has not returned by
+	// then ends the process with exit code 3 ("inconclusive: hang") after saving the plan. It is
+	// never reported as a violation.
+	HangLimit time.Duration
 
 	mu        sync.Mutex
 	start     time.Time
@@ -333,11 +337,28 @@ func Exec[P any](s *Suite, kind string, plan P, exec func(P) (Outcome, error)) *
 		s.writeReplay(fmt.Sprintf("current-%d.json", os.Getpid()), kind, plan, nil)
 	}
 	var out Outcome
-	err := Guard(func() error {
-		var e error
-		out, e = exec(plan)
-		return e
-	})
+	var err error
+	body := func() {
+		err = Guard(func() error {
+			var e error
+			out, e = exec(plan)
+			return e
+		})
+	}
+	if s.HangLimit > 0 {
+		done := make(chan struct{})
+		go func() { body(); close(done) }()
+		select {
+		case <-done:
+		case <-time.After(s.HangLimit):
+			p := s.writeReplay(fmt.Sprintf("hang-%s-seed%s%s.json", kind, os.Getenv("VERIF_SEED"), partTag()), kind, plan, nil)
+			fmt.Printf("VERIF-HANG property=%s kind=%s after=%s replay=%s\n", s.Prop, kind, s.HangLimit, p)
+			s.Flush()
+			os.Exit(3)
+		}
+	} else {
+		body()
+	}
 	if err == nil {
 		s.record(kind, plan, out)
 		return nil
